@@ -11,7 +11,8 @@ N = {"quick": 400, "thorough": 6000}
 RULE = ("Synthetic kernel-like binaries built from generated C libraries: a relocatable 'module' (.modinfo, "
         ".gnu.linkonce.this_module) or a static non-PIE 'vmlinux', in which a random subset E of the public functions and "
         "variables is exported the EXPORT_SYMBOL way (__ksymtab_strings section + a __ksymtab_<sym> entry each); hidden and "
-        "static definitions are present too. Oracle: `abidw B` -> the declarations carrying an elf-symbol-id and the symbols of "
+        "static definitions are present too, among them static functions that bear the name of a global (possibly exported) "
+        "function of another translation unit. Oracle: `abidw B` -> the declarations carrying an elf-symbol-id and the symbols of "
         "the symbol tables are exactly E; `abidw --no-linux-kernel-mode B` -> they are exactly the public defined symbols "
         "(readelf). Non-trivial = E is a proper, non-empty subset holding a function and a variable; distinct by SHA-1.")
 ASSUMPTIONS = ["the synthetic objects are recognised as kernel binaries by the same section names the real ones carry"]
@@ -28,7 +29,13 @@ def strategy_(draw, tier):
     E = sorted(n for n in pub if draw(st.booleans()))
     if not E:
         E = pub[:1]      # without a single EXPORT_SYMBOL there is no __ksymtab_strings section: not a kernel binary
-    return {"model": m, "cfg": draw(S.build_config()), "exported": E, "kind": S._pick(draw, ["module", "module", "vmlinux"])}
+    shadows = []
+    if M.ntus(m) >= 2:
+        for k, i in M.exported(m):
+            if k == "fn" and draw(st.integers(0, 3)) == 0:
+                shadows.append([i["name"], draw(st.sampled_from([t for t in range(M.ntus(m)) if t != i["tu"]]))])
+    return {"model": m, "cfg": draw(S.build_config()), "exported": E, "kind": S._pick(draw, ["module", "module", "vmlinux"]),
+            "shadows": shadows}
 
 
 def strategy(tier):
@@ -45,12 +52,13 @@ def run_case(case, cx):
     m, cfg, E, kind = case["model"], case["cfg"], set(case["exported"]), case["kind"]
     d = cx.dir()
     try:
-        b = kernel.build_kernel_object(m, cfg, d, E, kind)
+        b = kernel.build_kernel_object(m, cfg, d, E, kind, [tuple(x) for x in case.get("shadows", [])])
     except cbuild.CompileError as e:
         cx.cls("compile-error")
         cx.extra["compile_error:" + str(e)[-100:]] += 0
         raise Inconclusive(str(e))
     pub = set(s.name for s in elf.public_defined(elf.relevant_table(b)) if not s.name.startswith(("__ksymtab", "__kstrtab", "verif_")))
+    cx.cls("static-namesake-of-exported=%s" % any(n in E for n, t in case.get("shadows", [])))
     cx.cls("kind=" + kind, "cc=" + cfg["cc"], "exported=%d/%d" % (min(len(E), 5), min(len(pub), 8)))
     if E and E != pub and any(n.startswith("fn") for n in E) and any(n.startswith("var") for n in E):
         cx.nt(case)
